@@ -49,6 +49,8 @@ type c15Cfg struct {
 	U2E     map[string][]string `json:"user_to_email"` // nil: identity
 	Prep    map[string][]string `json:"prepare_email"` // nil: identity
 	Norm    string              `json:"normalize"`
+	// Actions: "" = default actions; "custom-replies" = every action directive is "reject" with its own SMTP reply
+	Actions string `json:"actions,omitempty"`
 }
 
 type c15Case struct {
@@ -112,6 +114,12 @@ func c15Eval(r *vx.Run, c c15Case) {
 	if c.Cfg.Prep != nil {
 		nodes = append(nodes, config.Node{Name: "prepare_email", Args: []string{"&vprep"}})
 	}
+	if c.Cfg.Actions == "custom-replies" {
+		nodes = append(nodes,
+			config.Node{Name: "unauth_action", Args: []string{"reject", "530", "5.7.0", "authentication required"}},
+			config.Node{Name: "no_match_action", Args: []string{"reject", "550", "5.7.1", "not your address"}},
+			config.Node{Name: "err_action", Args: []string{"reject", "451", "4.7.0", "try later"}})
+	}
 	m, _ := New("check.authorize_sender", "verif", nil, nil)
 	chk := m.(*Check)
 	if err := chk.Init(config.NewMap(map[string]interface{}{}, config.Node{Children: nodes})); err != nil {
@@ -133,7 +141,9 @@ func c15Eval(r *vx.Run, c c15Case) {
 		r1 := st.CheckSender(context.Background(), c.MailFrom)
 		r2 := st.CheckBody(context.Background(), hdr, nil)
 		st.Close()
-		accepted = !r1.Reject && !r1.Quarantine && r1.Reason == nil && !r2.Reject && !r2.Quarantine && r2.Reason == nil
+		// what the pipeline acts on: a result that carries a reason but neither flag is
+		// logged and otherwise ignored, the message goes on
+		accepted = !r1.Reject && !r1.Quarantine && !r2.Reject && !r2.Quarantine
 	}); p != nil {
 		r.Violation("C15:panic", fmt.Sprintf("%v on %s", p, vx.JSON(c)), c)
 		return
@@ -201,7 +211,7 @@ func TestVerifC15(t *testing.T) {
 	defer r.Finish()
 	module.RegisterInstance(c15U2E, nil)
 	module.RegisterInstance(c15Prep, nil)
-	r.Rule("entitlement tables {identity, address lists, domain entry, '*'} x prepare_email {identity, alias map} x normalisation {auto, noop} x authenticated user {entitled, other, none; case / NFD spellings} x MAIL FROM {entitled, alias, spelling variants incl. A-label, not entitled, a sharp-s domain next to its ss twin} x header layouts {single From, two addresses in one From, two From fields in both orders, group syntax, display name containing an address, RFC 2047 display name, folded field, missing From, an empty From field before / after a filled one} x Sender {absent, entitled, not entitled}; thorough tier: more addresses (subdomain, suffix-confusable domains, plus-tag, upper-case alias), layouts (bare addr-spec, comments, three From fields, group followed by an address, folded lists, empty first line) and Sender shapes (display name, two Sender fields, upper-case); each through the real check.authorize_sender initialised from configuration (CheckSender + CheckBody); oracle: every acceptance is justified by the reference entitlement function (authenticated, envelope sender entitled, every address of every From field entitled or an entitled Sender present). Non-trivial: distinct accepted cases")
+	r.Rule("entitlement tables {identity, address lists, domain entry, '*'} x prepare_email {identity, alias map} x normalisation {auto, noop} x action directives {default, reject with a custom SMTP reply} x authenticated user {entitled, other, none; case / NFD spellings} x MAIL FROM {entitled, alias, spelling variants incl. A-label, not entitled, a sharp-s domain next to its ss twin} x header layouts {single From, two addresses in one From, two From fields in both orders, group syntax, display name containing an address, RFC 2047 display name, folded field, missing From, an empty From field before / after a filled one} x Sender {absent, entitled, not entitled}; thorough tier: more addresses (subdomain, suffix-confusable domains, plus-tag, upper-case alias), layouts (bare addr-spec, comments, three From fields, group followed by an address, folded lists, empty first line) and Sender shapes (display name, two Sender fields, upper-case); each through the real check.authorize_sender initialised from configuration (CheckSender + CheckBody); a message counts as accepted when neither result carries the reject or quarantine flag (what the pipeline acts on); oracle: every acceptance is justified by the reference entitlement function (authenticated, envelope sender entitled, every address of every From field entitled or an entitled Sender present). Non-trivial: distinct accepted cases")
 	if rp := r.Replay(); rp != nil {
 		var c c15Case
 		if json.Unmarshal(rp, &c) != nil {
@@ -222,6 +232,7 @@ func TestVerifC15(t *testing.T) {
 		{Name: "domain/auto", Norm: "auto", U2E: map[string][]string{"alice": {"example.org"}, "root": {"*"}}},
 		{Name: "lists+prepare/auto", Norm: "auto", U2E: map[string][]string{"alice": {"alice@example.org"}}, Prep: map[string][]string{"alias@example.org": {"alice@example.org"}, "shared@example.org": {"alice@example.org", "bob@example.org"}}},
 		{Name: "lists/noop", Norm: "noop", U2E: map[string][]string{"alice": {"alice@example.org"}}},
+		{Name: "lists/auto/custom-replies", Norm: "auto", Actions: "custom-replies", U2E: map[string][]string{"alice": {"alice@example.org", "alias@example.org"}, "bob": {"bob@example.org"}}},
 	}
 	users := []string{"alice", "ALICE", "alice@example.org", "Alice@EXAMPLE.org", "bob", "root", "mallory@evil.example", "", "renée@пример.рф", nfd("renée") + "@xn--e1afmkfd.xn--p1ai"}
 	addrs := []string{"alice@example.org", "ALICE@Example.ORG", "alias@example.org", "shared@example.org", "bob@example.org", "mallory@evil.example", "renée@пример.рф", nfd("renée") + "@XN--E1AFMKFD.XN--P1AI", "other@example.org", "alice@notexample.org",
